@@ -43,6 +43,8 @@ class Conn:
         self.out = []                # C19 output items in program order
         self.segs = []               # raw written segments (bytes) in order
         self.live = {}               # r -> Request object still usable by the application
+        self.reqobj = {}             # r -> Request object (C21), kept for notifyFinish() calls made from callbacks
+        self.ndefs = {}              # r -> number of notifyFinish Deferreds requested so far
         self.plan = plan or (lambda r: dict(kind="now", nd=0, style="cl", pre=1))
         self.nproc = 0
         self.record = record
@@ -113,6 +115,7 @@ class Conn:
                 p = self.plan(r)
                 self.ev.append({"e": "recv", "r": r, "nd": p["nd"]})
                 self.live[r] = req
+                self.reqobj[r] = req
                 req._vr = r
                 req._vstyle = p["style"]
                 for d in range(1, p["nd"] + 1):
@@ -158,6 +161,14 @@ class Conn:
 
     def _notified(self, res, r, d, ok):
         self.ev.append({"e": "notify", "r": r, "d": d, "v": "none" if ok and res is None else ("fail" if not ok else "value")})
+        # a finish callback may itself ask to be notified: the new Deferred has to fire exactly once too
+        p = self.plan(r)
+        if d <= p["nd"] and d <= p.get("renotify", 0) and r in self.reqobj:
+            self.ndefs[r] = self.ndefs.get(r, p["nd"]) + 1
+            d2 = self.ndefs[r]
+            self.ev.append({"e": "nfreq", "r": r, "d": d2})
+            df = self.reqobj[r].notifyFinish()
+            df.addCallbacks(self._notified, self._notified, callbackArgs=(r, d2, True), errbackArgs=(r, d2, False))
         return None
 
     # ---- driver operations ---------------------------------------------------
@@ -293,6 +304,15 @@ def long_streams():
     yield "big-body-then-pipelined", req(b"POST /p HTTP/1.1", [b"Content-Length: 20000"], b"B" * 20000) + FOLLOW + FOLLOW
     yield "pipelined-behind-big", FOLLOW + req(b"POST /p HTTP/1.1", [b"Content-Length: 17000"], b"C" * 17000) + FOLLOW
     yield "long-line-no-crlf", b"GET /" + b"x" * 17000
+    # trailer sections around the chunked decoder's 64 KiB trailer limit (size counted with the CR LFs of the field lines)
+    for nlines in (1, 16):
+        for n in (65533, 65534, 65535, 65536, 65537, 65538, 65539):
+            lines = [b"T%x: " % i + b"t" * (4094 - 3 - len(b"%x" % i)) for i in range(nlines - 1)]
+            rest = n - (nlines - 1) * 4096
+            lines.append(b"L: " + b"l" * (rest - 2 - 3))
+            tr = b"".join(l + CRLF for l in lines)
+            assert len(tr) == n
+            yield "trailer-section-%dx%d" % (n, nlines), req(b"POST /t HTTP/1.1", [b"Transfer-Encoding: chunked"], b"3\r\nabc\r\n0\r\n" + tr + CRLF) + FOLLOW
 
 
 # --------------------------------------------------------------------------- C21: well-formed pipelines
@@ -435,6 +455,13 @@ def mutated_requests(thorough=False):
         yield "rl-method-byte:" + cl, req(b"G" + c + b"T / HTTP/1.1", [b"Host: h"])
         yield "field-name-byte:" + cl, req(G, [b"X" + c + b"n: v"])
         yield "field-value-byte:" + cl, req(G, [b"X-V: a" + c + b"z"])
+        # the same octet as the LAST and as the FIRST octet of the method / field name (a trailing LF is where "$" lies)
+        yield "rl-method-last-byte:" + cl, req(b"GE" + c + b" / HTTP/1.1", [b"Host: h"])
+        yield "rl-method-first-byte:" + cl, req(c + b"ET / HTTP/1.1", [b"Host: h"])
+        yield "field-name-last-byte:" + cl, req(G, [b"Xn" + c + b": v"])
+        yield "field-name-first-byte:" + cl, req(G, [b"Host: h", c + b"n: v"])
+        yield "cl-name-last-byte:" + cl, req(P, [b"Content-Length" + c + b": 3"], b"abc")
+        yield "te-name-last-byte:" + cl, req(P, [b"Transfer-Encoding" + c + b": chunked"], b"3\r\nabc\r\n0\r\n\r\n")
         yield "chunk-ext-byte:" + cl, req(P, [b"Transfer-Encoding: chunked"], b"3;e" + c + b"\r\nabc\r\n0\r\n\r\n")
         yield "chunk-size-byte:" + cl, req(P, [b"Transfer-Encoding: chunked"], b"3" + c + b"\r\nabc\r\n0\r\n\r\n")
         yield "cl-value-byte:" + cl, req(P, [b"Content-Length: 1" + c], b"x" * 20)
